@@ -14,7 +14,8 @@ LEVEL_TEXT = ("MGM, MGM2 and DSA (variants A/B/C, both probability modes) comput
               "shapes) and algorithm seeds. Oracle at quiescence: every computation reported finished() exactly once, "
               "with cycle_count == k (or without cycling when it has no neighbour), no handler raised, no message was "
               "posted to an unknown computation; quiescence with an unfinished computation is a deadlock. Liveness is "
-              "checked as quiescence within a generous step bound; a bound hit is counted as inconclusive.")
+              "checked as quiescence within a generous step bound; a bound hit is counted as inconclusive. "
+              "A quarter of the cases are DSA coincidence cases (every variable has own costs, all costs in 0..2).")
 LEVEL_NOTE = "Trusted: SimNet's FIFO/priority-lane model. 'Eventually' is bounded: 200000 scheduler steps."
 RULE = ("case = DCOP + algorithm + parameters + stop_cycle + schedule + seed; non-trivial = >=2 computations with "
         "neighbours and stop_cycle>=2; distinct by sha1(case)")
